@@ -40,3 +40,22 @@ Fixpoint mism_from (i : N) cs : list (N * N * N) :=
   | c :: r => check_case i c ++ mism_from (i + 1)%N r
   end.
 Definition mismatches cs := mism_from 0%N cs.
+
+(* ---- WAITFOR EVENT: which names each operand may mention (WaitforScope.v).
+   One case = (names declared in the enclosing scope, names mentioned by each
+   operand, did Compile accept).  kinds: 20 well-scoped WAITFOR rejected,
+   21 ill-scoped WAITFOR accepted. *)
+From Ferret Require Import WaitforScope.
+Definition wcheck_case (i : N) (c : list bytes * wf_refs * bool) : list (N * N * N) :=
+  let '(vis, w, accepted) := c in
+  match chk_waitfor vis w, accepted with
+  | true, false => [(20%N, i, 0%N)]
+  | false, true => [(21%N, i, 0%N)]
+  | _, _ => []
+  end.
+Fixpoint wmism_from (i : N) cs : list (N * N * N) :=
+  match cs with
+  | [] => []
+  | c :: r => wcheck_case i c ++ wmism_from (i + 1)%N r
+  end.
+Definition wmismatches cs := wmism_from 0%N cs.
